@@ -219,7 +219,7 @@ pub fn reference_history(pf: &[u64], hist: &[Op]) -> Vec<Vec<u64>> {
 fn part_b(ctx: &mut Ctx, evals: &mut u64, nontrivial: &mut u64, samples: &mut Vec<Value>) {
     let depth = if ctx.quick() { 4 } else { 6 };
     let prefixes: Vec<Vec<u64>> = if ctx.quick() {
-        vec![vec![1, 3], vec![0, 2, 5], vec![2, 5, 7, 11]]
+        vec![vec![1, 3], vec![0, 4], vec![0, 2, 5], vec![2, 5, 7, 11]]
     } else {
         vec![vec![1, 3], vec![0, 4], vec![0, 2, 5], vec![2, 4, 6], vec![2, 5, 7, 11], vec![0, 0, 3, 3]]
     };
@@ -230,7 +230,7 @@ fn part_b(ctx: &mut Ctx, evals: &mut u64, nontrivial: &mut u64, samples: &mut Ve
     for pf in &prefixes {
         for len in 1..=depth {
             // depth 6 on the first two prefixes only (3.0e6 histories each)
-            if len == 6 && pf != &prefixes[0] && pf != &prefixes[2] {
+            if len == 6 && pf != &prefixes[0] && pf != &prefixes[1] {
                 continue;
             }
             let total = (alpha.len() as u64).pow(len as u32);
